@@ -318,8 +318,8 @@ class PathModel:
         if isinstance(other, PathModel): return it.py_eq(self.s, other.s)
         return False
     def pyvc_getattr(self, it, name):
-        if name == 'as_posix': return PBuiltin(lambda it: self.s, 'as_posix')
-        raise OutsideSubset('Path.' + name)
+        from . import fsmodel                      # pure-path attributes (suffix, stem, name, parent, with_name, ...) need no file system
+        return fsmodel.p_getattr(self, it, name)
 def normalise_path(it, a):
     st = it.st
     la = V._lit(it, a)
@@ -387,13 +387,13 @@ class PathClass:
 
 # ------------------------------------------------------------------ functools.lru_cache (resolva): a real memo table
 class MemoWrapper:
-    """functools.lru_cache(): memo keyed on the positional arguments (identity for objects, == for strings); returns the
+    """functools.lru_cache(): memo keyed on the arguments with CPython's key rule (same object, or equal hash and ==: Interp.key_eq); returns the
     *same object* on a hit -- this is what makes sharing of cached mutable results visible (C13/C14)."""
     def __init__(self, fn): self.fn = fn; self.table = []
     def pyvc_call(self, it, args, kwargs):
         for k, kk, v in self.table:
-            if len(k) == len(args) and list(kk) == list(kwargs) and all(it.known_eq(a, b) for a, b in zip(k, args)) \
-               and all(it.known_eq(kwargs[n], kk[n]) for n in kk): return v
+            if len(k) == len(args) and list(kk) == list(kwargs) and all(it.key_eq(a, b) for a, b in zip(k, args)) \
+               and all(it.key_eq(kwargs[n], kk[n]) for n in kk): return v
         v = it.call(self.fn, args, kwargs)
         self.table.append((list(args), dict(kwargs), v))
         return v
@@ -458,7 +458,19 @@ def make_world(repo=None):
                                       lru_cache=PBuiltin(_lru_cache, 'lru_cache'), cache=PBuiltin(lambda it, g: _memo(g), 'cache'),
                                       partial=PBuiltin(lambda it, f, *a, **k: PBuiltin(lambda it, *b, **kk: it.call(f, list(a) + list(b), {**k, **kk}), 'partial'), 'partial'))
     sp['pathlib'] = lambda it: _mod('pathlib', Path=PathClass(), PurePath=PathClass())
-    sp['os'] = lambda it: _mod('os', sep='/', path=Opaque('os.path'), PathLike=Opaque('PathLike'), environ=PDict())
+    def m_ospath(it):
+        # posixpath on strings: basename = text after the last '/', dirname = text before it (without trailing slashes unless it is the root), splitext as PurePath.suffix
+        from . import fsmodel
+        def basename(it_, p): return simp(it_.st.rsplit1(S(it_.to_str(p)), '/', 'os.path.basename')[-1])
+        def dirname(it_, p):
+            parts = it_.st.rsplit1(S(it_.to_str(p)), '/', 'os.path.dirname')
+            if len(parts) == 1: return ''
+            head = simp(parts[0])
+            if isinstance(head, str): return head.rstrip('/') or ('/' if True else '')
+            raise OutsideSubset('os.path.dirname of a symbolic head')
+        return _mod('os.path', basename=PBuiltin(basename, 'basename'), dirname=PBuiltin(dirname, 'dirname'), sep='/')
+    sp['os.path'] = m_ospath
+    sp['os'] = lambda it: _mod('os', sep='/', path=Lazy('os.path', None), PathLike=Opaque('PathLike'), environ=PDict())
     class FormatterModel:
         def pyvc_call(self, it, args, kwargs): return self
         def pyvc_getattr(self, it, name):
